@@ -1,5 +1,6 @@
 import AfqmcVerif.Lemmas.SingleDet
 import AfqmcVerif.Lemmas.Estimator
+import AfqmcVerif.Lemmas.CisdOverlap
 import Mathlib.Data.Matrix.ColumnRowPartitioned
 import Mathlib.LinearAlgebra.Matrix.SchurComplement
 
@@ -82,5 +83,18 @@ theorem ghf_block_diagonal_is_uhf (Ca : Matrix (Fin m) (Fin ka) K) (Cb : Matrix 
   rw [Matrix.transpose_fromCols, Matrix.transpose_fromCols, Matrix.fromRows_mul, Matrix.fromRows_mul,
     Matrix.fromCols_fromRows_eq_fromBlocks]
   simp [Matrix.det_fromBlocks_zero₂₁]
+
+/-! ## restricted CISD (`CISD`, `cisd`, `cisd_faster`) -/
+
+/-- **restricted CISD overlap**: the closed form `(1 + 2 o1 + o2)·o0` of the library equals the explicit expansion of
+`(1 + Σ c_ia E_ia + ½ Σ c_iajb E_ia E_jb)|ref⟩` (spin-summed `E`) over the reference, singly and doubly excited
+determinants, where `E^σ_ia` replaces orbital `i` by `a` in place — every number of occupied and virtual orbitals,
+every amplitude tensor (no symmetry assumed), every walker with non-vanishing reference overlap.  The single and
+double in-place minors are `det W_ref · Θ_ai` and `det W_ref · (Θ_ai Θ_bj − Θ_bi Θ_aj)` (`Lemmas/Excite.lean`). -/
+theorem cisd_overlap_is_manybody {k v : ℕ} (W : Matrix (Fin (k + v)) (Fin k) K)
+    (c1 : Fin k → Fin v → K) (c2 : Fin k → Fin v → Fin k → Fin v → K)
+    (hW : AfqmcVerif.Excite.D0 W ≠ 0) (h2 : (2 : K) ≠ 0) :
+    AfqmcVerif.Excite.cisdCode W c1 c2 = AfqmcVerif.Excite.cisdSpec W c1 c2 :=
+  AfqmcVerif.Excite.cisd_overlap W c1 c2 hW h2
 
 end AfqmcVerif.Props.C01
